@@ -85,6 +85,7 @@ func (w *responseWriter) Write(b []byte) (n int, err error) {
 // Flush get status code
 // Tips: implement the http.Flusher interface.
 func (w *responseWriter) Flush() {
+	w.ensureWriteHeader()
 	w.Writer.(http.Flusher).Flush()
 }
 
